@@ -53,7 +53,7 @@ UNIVERSE = ['c12.f.x', 'c12.f.y', 'c12.f.z']
 
 
 def bound(tier):
-  return 'depth<=%d over %d operations' % (4 if tier == 'quick' else 6, len(OPS))
+  return 'depth<=%d over %d operations' % (4 if tier == 'quick' else 5, len(OPS))
 
 
 def _hook(kind):
@@ -441,7 +441,7 @@ class World:
 def run(ctx):
   res = core.Result()
   res.extra['alphabet'] = OPS
-  bfs.run_bfs(ctx, __import__('checks.c12', fromlist=['x']), 4 if ctx.quick else 6, res,
+  bfs.run_bfs(ctx, __import__('checks.c12', fromlist=['x']), 4 if ctx.quick else 5, res,
               max_states=200000 if ctx.quick else 1500000)
   return res
 
